@@ -195,6 +195,29 @@ Theorem C14_interleaved_decoded_is_original :
 Proof. exact interleaved_decoded_is_original. Qed.
 Print Assumptions C14_interleaved_decoded_is_original.
 
+(* damaged streams: whatever the decoder makes of response i's body - data, then its terminal status -
+   is what response i's caller gets in any interleaving; a decode error is not lost, moved to another
+   response, or turned into data *)
+Theorem C14_interleaved_error_surfaces : forall dec bodies ops i e w sizes,
+  nth_error bodies i = Some (Lazy e w) ->
+  project i ops = map OReadFull sizes ->
+  Forall (fun n => 0 < n) sizes -> length (s_data (dec e w)) < length sizes ->
+  let res := results_of i ops (fst (sess_run dec ops (sess_open bodies))) in
+  delivered_bytes res = s_data (dec e w) /\ last (map snd res) StOk = StEnd (s_end (dec e w)).
+Proof. exact interleaved_reader_stream. Qed.
+Print Assumptions C14_interleaved_error_surfaces.
+
+(* ... and it is sticky whatever is interleaved: once an operation of response i reported a terminal
+   status (io.EOF or an error) every later ReadFull of response i reports no data and the same status *)
+Theorem C14_session_sticky : forall dec bodies ops i b sizes k e,
+  nth_error bodies i = Some b ->
+  project i ops = map OReadFull sizes ->
+  let res := results_of i ops (fst (sess_run dec ops (sess_open bodies))) in
+  nth_error (map snd res) k = Some (StEnd e) ->
+  forall j, k < j -> j < length sizes -> nth_error res j = Some ([], StEnd e).
+Proof. exact session_sticky. Qed.
+Print Assumptions C14_session_sticky.
+
 (* the allocation discipline of `sess_step` is what the source says (tables regenerated by gosync on
    every run): no package-level variable in internal/compress, and each reader's decoder field is
    assigned only in Read, only from the codec's constructor on the reader's own body *)
